@@ -219,9 +219,32 @@ pub struct PortState {
     pub fail_baud: Option<(serial_core::ErrorKind, &'static str)>,
     pub fail_write_settings: Option<(serial_core::ErrorKind, &'static str)>,
     pub fail_set_timeout: Option<(serial_core::ErrorKind, &'static str)>,
+    /// how many more times each configuration fault fires (usize::MAX = persistent); 0 = spent
+    pub fault_budget: usize,
+    /// faults for the port's flush(): the k-th flush call returns this error kind
+    pub flush_faults: Vec<(usize, io::ErrorKind)>,
+    pub flush_calls: usize,
 }
 
 impl PortState {
+    /// Returns the fault if it is armed and the budget allows it, consuming one unit of a finite budget.
+    fn take(&mut self, which: u8) -> Option<(serial_core::ErrorKind, &'static str)> {
+        let f = match which {
+            0 => self.fail_read_settings,
+            1 => self.fail_baud,
+            2 => self.fail_write_settings,
+            _ => self.fail_set_timeout,
+        };
+        if f.is_some() {
+            if self.fault_budget == 0 {
+                return None;
+            }
+            if self.fault_budget != usize::MAX {
+                self.fault_budget -= 1;
+            }
+        }
+        f
+    }
     fn push(&mut self, ev: PortEv, t0: Instant) {
         self.log.push(Stamped { ev, t0, t1: Instant::now() });
     }
@@ -239,6 +262,9 @@ pub fn shared(settings: PortSettings) -> Shared {
         fail_baud: None,
         fail_write_settings: None,
         fail_set_timeout: None,
+        fault_budget: usize::MAX,
+        flush_faults: vec![],
+        flush_calls: 0,
     }))
 }
 
@@ -274,7 +300,7 @@ impl SerialPortSettings for InstrSettings {
     }
     fn set_baud_rate(&mut self, baud_rate: BaudRate) -> serial_core::Result<()> {
         let t0 = Instant::now();
-        let fail = self.st.borrow().fail_baud;
+        let fail = self.st.borrow_mut().take(1);
         self.st.borrow_mut().push(PortEv::SetBaud { rate: baud_rate, ok: fail.is_none() }, t0);
         match fail {
             Some((k, d)) => Err(serial_core::Error::new(k, d)),
@@ -375,8 +401,18 @@ impl Write for InstrPort {
         r.map_err(|k| io::Error::new(k, "port write fault"))
     }
     fn flush(&mut self) -> io::Result<()> {
-        self.st.borrow_mut().push(PortEv::Flush, Instant::now());
-        Ok(())
+        let mut st = self.st.borrow_mut();
+        let k = st.flush_calls;
+        st.flush_calls += 1;
+        let fault = st.flush_faults.iter().find(|f| f.0 == k).map(|f| f.1);
+        st.push(PortEv::Flush, Instant::now());
+        match fault {
+            Some(kind) => {
+                st.push(PortEv::Other("flush_failed"), Instant::now());
+                Err(io::Error::new(kind, "scripted flush fault"))
+            }
+            None => Ok(()),
+        }
     }
 }
 
@@ -385,7 +421,7 @@ impl SerialDevice for InstrPort {
 
     fn read_settings(&self) -> serial_core::Result<InstrSettings> {
         let t0 = Instant::now();
-        let fail = self.st.borrow().fail_read_settings;
+        let fail = self.st.borrow_mut().take(0);
         self.st.borrow_mut().push(PortEv::ReadSettings { ok: fail.is_none() }, t0);
         match fail {
             Some((k, d)) => Err(serial_core::Error::new(k, d)),
@@ -398,7 +434,7 @@ impl SerialDevice for InstrPort {
 
     fn write_settings(&mut self, settings: &InstrSettings) -> serial_core::Result<()> {
         let t0 = Instant::now();
-        let fail = self.st.borrow().fail_write_settings;
+        let fail = self.st.borrow_mut().take(2);
         self.st.borrow_mut().push(PortEv::WriteSettings { settings: settings.cur, ok: fail.is_none() }, t0);
         match fail {
             Some((k, d)) => Err(serial_core::Error::new(k, d)),
@@ -416,7 +452,7 @@ impl SerialDevice for InstrPort {
 
     fn set_timeout(&mut self, timeout: Duration) -> serial_core::Result<()> {
         let t0 = Instant::now();
-        let fail = self.st.borrow().fail_set_timeout;
+        let fail = self.st.borrow_mut().take(3);
         self.st.borrow_mut().push(PortEv::SetTimeout { timeout, ok: fail.is_none() }, t0);
         match fail {
             Some((k, d)) => Err(serial_core::Error::new(k, d)),
